@@ -12,6 +12,12 @@ from .core import Report, Ob, ERROR, finish, run_replay
 
 
 def main(argv):
+    try:
+        from rdkit import RDLogger
+
+        RDLogger.DisableLog('rdApp.*')
+    except Exception:  # noqa
+        pass
     if len(argv) < 1:
         print("usage: check <id> [quick|thorough] | check <id> --replay <path>")
         return 3
